@@ -19,12 +19,13 @@ RULE = (
     "mvrs_to_data (with a recording overstatement assorter), then set_p_values.  Oracle: every datum in [0,u] and not "
     "NaN; u = assorter bound (polling) or 2/(2 - v/u_a) (comparison/ONEAudit) and equal to assertion.test.u after "
     "set_p_values; under style exactly the cards whose CVR lists the contest and whose sample number is within the "
-    "threshold contribute, in order.  Non-trivial = case with data at both ends 0 and u attained or a card filtered out; "
+    "threshold contribute, in order.  A second pass keeps both assertions of a three-candidate plurality contest (different "
+    "margins) and checks, after set_p_values, that each assertion's own test holds its own u.  Non-trivial = case with data at both ends 0 and u attained or a card filtered out; "
     "distinct = distinct (kind, audit type, style, multiset, threshold)"
 )
 ASSUMPTIONS = ["tolerance 1e-12*u on the range test", "non-positive margins are outside the property's quantifier: counted, not judged",
                "set_p_values is only called when the contest has at least one datum"]
-REQUIRE_VAC = ["datum_equal_0", "datum_equal_u", "cards_filtered_by_threshold", "cards_filtered_by_style", "pooled_cards_in_data", "set_p_values_calls"]
+REQUIRE_VAC = ["two_assertions_with_different_bounds", "datum_equal_0", "datum_equal_u", "cards_filtered_by_threshold", "cards_filtered_by_style", "pooled_cards_in_data", "set_p_values_calls"]
 PLAN = {"quick": {"full": 2, "reduced": 2}, "thorough": {"full": 2, "reduced": 3}}
 KINDS = ["plurality", "sm13", "sm12", "supermajority", "sm34", "irv_neb", "irv_nen"]
 AUDITS = [Audit.AUDIT_TYPE.POLLING, Audit.AUDIT_TYPE.CARD_COMPARISON, Audit.AUDIT_TYPE.ONEAUDIT]
@@ -123,7 +124,64 @@ def judge(kind, cards, style, audit_type, thr, feats=None):
     return out, (d.tolist(), float(u))
 
 
+def judge_multi(cards, style, audit_type):
+    """a plurality contest with its two assertions (A v B, A v C: different margins, different bounds): after
+    set_p_values every assertion's own test holds that assertion's own u, and its data lie below it"""
+    try:
+        w = s3.workflow("plurality", cards, style, audit_type=audit_type, via_all=True, keep_all=True)
+    except Exception as e:  # noqa
+        return [(f"C06|multi|workflow-exception|{type(e).__name__}", f"{type(e).__name__}: {str(e)[:80]}")], None
+    if not w["under"]:
+        return [], None
+    con, cvrs, mvrs = w["con"], w["cvrs"], w["mvrs"]
+    margins = {k: a.margin for k, a in con.assertions.items()}
+    if any(not (v == v) or v <= 0 for v in margins.values()):
+        return [], None
+    con.sample_threshold = len(cards)
+    try:
+        with contextlib.redirect_stdout(io.StringIO()), warnings.catch_warnings():
+            warnings.simplefilter("ignore")
+            Assertion.set_p_values({s3.CID: con}, mvrs, cvrs)
+    except Exception as e:  # noqa
+        return [(f"C06|multi|set_p_values-exception|{type(e).__name__}", f"{type(e).__name__}: {str(e)[:80]}")], None
+    out = []
+    for k, a in con.assertions.items():
+        ua = a.assorter.upper_bound
+        want_u = ua if audit_type == Audit.AUDIT_TYPE.POLLING else 2 / (2 - margins[k] / ua)
+        if abs(a.test.u - want_u) > 1e-12 * want_u:
+            out.append((f"C06|multi|{audit_type}|u-installed-in-test", f"assertion {k}: test.u = {a.test.u} after set_p_values, its own bound is {want_u} (margins {margins})"))
+            break
+        with warnings.catch_warnings():
+            warnings.simplefilter("ignore")
+            d, u = a.mvrs_to_data(mvrs, cvrs)
+        if len(d) and max(d) > a.test.u * (1 + 1e-12):
+            out.append((f"C06|multi|{audit_type}|datum-above-test-u", f"assertion {k}: datum {max(d)} above the bound {a.test.u} left in its test"))
+            break
+    return out, margins
+
+
+def run_multi(sh, rec):
+    _, n, first = sh
+    alpha = s3.alphabet("plurality", False)
+    for ms in s3.multisets(len(alpha), n, first):
+        cards = [alpha[a] for a in ms]
+        rec.state()
+        for style in (True, False):
+            for at in (Audit.AUDIT_TYPE.CARD_COMPARISON, Audit.AUDIT_TYPE.ONEAUDIT):
+                v, margins = judge_multi(cards, style, at)
+                rec.trans()
+                rec.evals()
+                if margins and len(set(margins.values())) > 1:
+                    rec.vac("two_assertions_with_different_bounds")
+                    rec.outcome(("multi", at, style, ms))
+                rec.observe(("multi", ms, style, at, margins))
+                for key, what in v:
+                    rec.violate(key, what, {"multi": True, "cards": [list(c) for c in cards], "style": style, "audit_type": at})
+
+
 def run_shard(sh, rec):
+    if sh[0] == "multi":
+        return run_multi(sh, rec)
     kind, n, first, reduced, last = sh
     alpha = s3.alphabet("irv_neb" if kind.startswith("irv") else "plurality", reduced)
     for ms in s3.multisets(len(alpha), n, first):
@@ -162,8 +220,13 @@ def explore(tier, seed):
         for n in range(pl["full"] + 1, pl["reduced"] + 1):
             for first in range(len(s3.alphabet(fam, True))):
                 sh.append((kind, n, first, True, n == pl["reduced"]))
+    for n in (1, 2):
+        for first in range(len(s3.alphabet("plurality"))):
+            sh.append(("multi", n, first))
     return core.pmap(run_shard, sh, seed, progress="C06")
 
 
 def run_case(case):
+    if case.get("multi"):
+        return judge_multi([tuple(c) for c in case["cards"]], case["style"], case["audit_type"])[0]
     return judge(case["kind"], [tuple(c) for c in case["cards"]], case["style"], case["audit_type"], case["thr"])[0]
